@@ -446,7 +446,7 @@ NET_POOL = ["10.0.0.0/8", "192.168.1.0/24", "192.168.1.1/24", "0.0.0.0/0", "1.2.
             "0.0.0.0/0.0.0.0", "0.0.0.0/255.255.255.255", "1.2.3.4/255.255.255.255", "10.0.0.0/٨"]
 HOST_POOL = ["localhost", "example.com", "a", "ab", "a-b.c", "-ab", "ab-", "a_b", "MYPC", "my pc", "host!", "toolongnetbiosname1", "under_score_host", "1.2.3.4",
              "256.1.1.1", "a.b", "é", "éé", "host\n", "example.com\n", "1.2.3.4\n", "a\n", "", "x" * 16, "x" * 15, "a..b", "A1", "~tilde", "{brace}", "a/b", "a:b",
-             "::1", "fe80::1", "::ffff:10.0.0.1", "2001:db8::1"]
+             "::1", "fe80::1", "::ffff:10.0.0.1", "2001:db8::1", "example.com.", "beta.", "4.4.4.4.", "a.", "ab.", "1.2.3.4..", "host.."]
 URL_POOL = ["http://example.com", "https://a.b/c?d=e#f", "ftp://x", "mailto:a@b", "example.com", "//example.com/x", "http:", ":80", "1http://x", "a+b.c-d://x", "", "x",
             "HTTP://EXAMPLE.COM", " http://x", "http://x ", "\thttp://x", "ht tp://x", "http://[::1]/", "http://[::1/", "http://]x[/", "http://a]b/", "file:///etc/passwd",
             "a:b", "a1:b", "é://x", "http://é.com", "x:", "javascript:alert(1)", "ht\ntp://x", "http://exa\tmple.com"]
@@ -497,6 +497,13 @@ def crafted_values(f):
                         out.append(c.swapcase() + "A" * max(m - 2, 0) + c.swapcase())
         for ch in f.get("choices") or []:
             out += [ch, ch.upper(), " " + ch + " ", ch.swapcase()]
+    if k == "hostname":
+        for n in (f.get("min_len"), f.get("max_len")):
+            if isinstance(n, int):
+                for m in {max(n - 1, 1), n, n + 1}:
+                    out += ["a" * m, "a" * max(m - 1, 1) + ".", "a" * m + ".", "a." + "b" * max(m - 2, 1), "a" * max(m - 2, 1) + ".b."]   # names at the bound, with and without the root label
+        if f.get("allow_ipv4", True) is False:
+            out += ["4.4.4.4", "4.4.4.4.", "10.0.0.1.", "1.2.3.4"]
     if k in ("url", "hostname", "ipv4addr", "ipv4net") and not any(f.get(o) not in (None, [], "", False) for o in _STR_OPTS):
         out += [x for x in scalar_pool(f) if isinstance(x, str)]           # syntax: every spelling of the pool, on every route
     if k == "ipv4net":
@@ -766,6 +773,15 @@ def satisfies(f, v):
             return True
         if ":" in v:
             return False                         # neither a host name nor an IPv4 address has a colon (an IPv6 literal does)
+        if k == "hostname":
+            # the declared length bounds are about the text the field holds; a field that says allow_ipv4=False holds no IPv4 literal
+            if f.get("min_len") is not None and len(v) < f["min_len"]:
+                return False
+            if f.get("max_len") is not None and len(v) > f["max_len"]:
+                return False
+            parts = v.split(".")
+            if f.get("allow_ipv4", True) is False and len(parts) == 4 and all(p.isascii() and p.isdigit() and (p == "0" or not p.startswith("0")) and int(p) <= 255 for p in parts):
+                return False
         return None
     if k == "bytes":
         return isinstance(v, bytes)
